@@ -1,7 +1,7 @@
 (* Extraction of the executable models to OCaml (ExtrOcamlBasic only; N, Z, positive, nat stay Coq datatypes). *)
 Require Extraction.
 Require Import ExtrOcamlBasic.
-From WC Require Import Str WcParse WcSplit Expand Spec Norm Escape GlobSplit Glob WcMatchM RealMatch.
+From WC Require Import Str WinDrive WcParse WcSplit Expand Spec Norm Escape GlobSplit Glob WcMatchM RealMatch.
 From WC.Proofs Require Import GlobLemmas.
 Extraction Language OCaml.
-Extraction "../driver/model.ml" wcparse linux wcsplit pattern_lists den pden unparse punparse norm_pattern escape is_magic glob_all listed imatch gsplit run_realpath.
+Extraction "../driver/model.ml" wcparse linux wcsplit pattern_lists den pden unparse punparse norm_pattern escape is_magic glob_all listed imatch gsplit run_realpath get_win_drive drive_regex drive_plain.
